@@ -196,6 +196,8 @@ def r3(ctx):
             key = u(s_.target.slice)
             if same_iter and key in ("accessible_pos[pos] + 1", "1 + accessible_pos[pos]") and s_.value is not None and u(s_.value) in (u(st[0].value), "components[accessible_pos[pos]]"):
                 oko, why = True, "the shadow coordinate pos + 1 gets the component of pos in the same iteration"
+            elif same_iter and key in ("accessible_pos[pos] + 1", "1 + accessible_pos[pos]"):
+                oko, why = False, "the shadow coordinate pos + 1 gets `%s`, not the component of its variant (`%s`)" % (u(s_.value)[:50] if s_.value is not None else "?", u(st[0].value))
             elif s_.value is not None and "components[" in u(s_.value):
                 oko, why = False, "`%s` copies one entry of components over another after the intervals were assigned: when two variants are adjacent the later variant's own phase set is replaced by its neighbour's, across a cut" % s_.text()[:70]
             else:
